@@ -75,7 +75,7 @@ fn main() {
         }
         "c09" => {
             // panic-freedom: Exec model's ROWS/PANIC prediction vs catch_unwind(interpret_ir)
-            let mut o = out::Out::new(&args.out, "From TF Require Import Run.", 60);
+            let mut o = out::Out::new(&args.out, "From TF Require Import Run RunNp.", 60);
             c01::run(args.seed, args.n, &mut o, false, 15, true);
             o.finish();
         }
